@@ -80,6 +80,26 @@ static void fill_differential(const struct inp *in, unsigned mask, struct res *r
     r->cases++; r->validated++;
 }
 
+/* polyseed_encode cannot report a status: whatever the allocator does, it must emit the reference phrase and leak nothing */
+static void encode_under_faults(struct res *r) {
+    rseed base; memset(&base, 0, sizeof base); for (int i = 0; i < 19; i++) base.secret[i] = (uint8_t)(0xB1 + 23 * i); base.secret[18] &= 0x3F; base.birthday = 321; base.features = 2;
+    polyseed_dependency d; deps_variant(0, 0, 0, 0, &d); polyseed_inject(&d); polyseed_enable_features(7);
+    for (int li = 0; li < R_NLANG; li++) for (unsigned coin = 0; coin < 3; coin++) {
+        polyseed_data *s = seed_from_ref(&base); if (!s) { res_viol(r, "c15:encode-setup", "", "cannot load"); return; }
+        char exp[2048]; size_t en = ref_phrase(&base, li, coin, exp, 0);
+        env_clear_log(); polyseed_str out; size_t n = polyseed_encode(s, polyseed_get_lang(li), (polyseed_coin)coin, out); long nreq = E.alloc_seq; r->calls++;
+        for (long fail = 0; fail <= nreq; fail++) {
+            env_clear_log(); E.fail_at = fail; memset(out, 0x33, sizeof out);
+            n = polyseed_encode(s, polyseed_get_lang(li), (polyseed_coin)coin, out); E.fail_at = -1; r->calls++; r->cases++;
+            char rep[64]; sprintf(rep, "encode %d %u %ld", li, coin, fail);
+            if (n != en || memcmp(out, exp, en + 1)) { char key[100]; snprintf(key, sizeof key, "c15:encode-under-fault:%s", RL[li].code); res_viol(r, key, rep, "polyseed_encode (%s) with allocation request #%ld failing emitted a phrase that differs from the fault-free one", RL[li].code, fail); break; }
+            if (ledger_live() != 1 || E.err_foreign_free || E.err_free_null) { res_viol(r, "c15:encode-ledger", rep, "polyseed_encode left %d extra block(s) / foreign frees %d", ledger_live() - 1, E.err_foreign_free); break; }
+            r->validated++;
+        }
+        polyseed_free(s);
+    }
+}
+
 int main(int argc, char **argv) {
     int a = common_args(argc, argv);
     ref_init(VERIF_ROOT); sec_mark_initial(); env_init(); inject(0); polyseed_enable_features(7);
@@ -119,6 +139,7 @@ int main(int argc, char **argv) {
         for (long fail = 0; fail <= n; fail++) run(&IN[i], mask, fail, na, r);      /* every request of the call made to fail, and one beyond (never reached) */
     }
     for (int i = 0; i < NIN; i++) fill_differential(&IN[i], 7, r);
+    encode_under_faults(r);
     int triples = 0; for (int k = 0; k < 4; k++) for (int s = 0; s < 8; s++) for (int f = 0; f < 3; f++) triples += seen[k][s][f];
     res_sample(r, "%d inputs (one per entry point x outcome class) x masks {0,5,7} x fail_at {none,0,1} x {injected, libc} allocator; e.g. \"%s\"", NIN, IN[NIN - 1].name);
     out_begin(); out_part("entry points x outcome classes x failing allocation request", r, CLS, ""); out_kv_int("fault_distinct_triples", triples); out_kv_int("fault_inputs", NIN); out_kv_int("max_allocation_requests_per_call", MAX_REQUESTS); out_end();
